@@ -166,21 +166,26 @@ def run_job(unit, job, cpath, outdir, tier, extra_defines=()):
         res.detail = (out + err)[-4000:]
         res.wall_s = time.time() - t0
         return res
-    gi = ['goto-instrument', '--dfcc', entry]
-    if job.get('enforce'):
-        gi += ['--enforce-contract', job['enforce']]
-    for r in job.get('replace', []):
-        gi += ['--replace-call-with-contract', r]
-    if job.get('loop_contracts', True):
-        gi += ['--apply-loop-contracts']
-    gi += [a_gb, b_gb]
-    rc, out, err, _ = run(gi, 600)
-    res.cmds.append(' '.join(gi))
-    if rc != 0:
-        res.reason = 'goto-instrument failed: ' + ((out + err).strip().split('\n')[-1])[:400]
-        res.detail = (out + err)[-4000:]
-        res.wall_s = time.time() - t0
-        return res
+    if job.get('plain'):
+        # bounded stand-in: plain cbmc on the harness, no contract instrumentation; loops are unwound
+        shutil.copy(a_gb, b_gb)
+        res.cmds.append('(no goto-instrument: plain bounded harness)')
+    else:
+        gi = ['goto-instrument', '--dfcc', entry]
+        if job.get('enforce'):
+            gi += ['--enforce-contract', job['enforce']]
+        for r in job.get('replace', []):
+            gi += ['--replace-call-with-contract', r]
+        if job.get('loop_contracts', True):
+            gi += ['--apply-loop-contracts']
+        gi += [a_gb, b_gb]
+        rc, out, err, _ = run(gi, 600)
+        res.cmds.append(' '.join(gi))
+        if rc != 0:
+            res.reason = 'goto-instrument failed: ' + ((out + err).strip().split('\n')[-1])[:400]
+            res.detail = (out + err)[-4000:]
+            res.wall_s = time.time() - t0
+            return res
     flags = list(job.get('flags', unit.get('flags', DEFAULT_FLAGS)))
     flags += job.get('extra_flags', [])
     if job.get('unwind') and not isinstance(job['unwind'], str):
@@ -246,7 +251,7 @@ def run_job(unit, job, cpath, outdir, tier, extra_defines=()):
     # structural vacuity guards
     n_post = sum(1 for o in res.obligations if o['class'] == 'postcondition')
     want_post = job.get('min_postconditions')
-    if job.get('enforce') and n_post == 0:
+    if job.get('enforce') and n_post == 0 and not job.get('plain'):
         res.reason = 'no postcondition obligations generated for %s' % job['enforce']
         res.wall_s = time.time() - t0
         return res
